@@ -10,7 +10,9 @@ R18.7 writer and reader of the text format agree
 
 Recognition is by role, not by spelling: a boolean point mask is identified by what it computes (comparison of the input with the
 table range, result of _findInterpolatablePoints, negation of such a mask), locals by what is assigned to them, arguments by
-parameter (keyword or position), control flow through the CFG.  Keys carry fixed role labels, never names of locals.
+parameter (keyword or position), control flow through the CFG.  Keys carry fixed role labels, never names of locals.  A method that
+fuses sibling blocks into one `for` over a literal tuple of cases is read case by case (`_written`: the loop is written out, the
+block-local names of each copy are replaced by what they hold).
 """
 from __future__ import annotations
 
@@ -69,6 +71,222 @@ def _only_via(g: CFG, t, pol: bool, a) -> bool:
     if g.node_of(a) is None:
         return False
     return g.must_pass(CFG.ENTRY, a, lambda q: q is t) and not g.reaches(g.branch(t, not pol), a, avoid=lambda q: q is t)
+
+
+# ------------------------------------------------------------------ written-out form of a method
+# The two per-side blocks of _evaluateOutOfBounds may be fused into one `for` over a literal tuple of cases (side mask, flag, ...), the
+# operands of each side chosen inside the body from the loop variables.  The rules read the method case by case: the loop is written
+# out (c06.written_out: guard clauses `if c: continue` become if / else, one copy of the body per case, tests between literals decided),
+# then the block-local names every copy re-binds (`mode = self.extrapolationTypeLower`, `bound, sign = self._rangeMin, "<"`) are replaced
+# by what they hold (`_propagate_locals`).  Nothing is rewritten in a method without such a loop.
+PURE_CALLS = ("np.", "numpy.", "math.")
+PURE_BUILTINS = {"len", "abs", "float", "int", "bool", "str", "repr", "isinstance", "tuple", "list", "min", "max", "range", "enumerate", "zip", "type"}
+
+
+def _pure_value(e: ast.AST) -> bool:
+    """a constant, a local, an attribute path of a local: reading it evaluates nothing else"""
+    if isinstance(e, ast.UnaryOp) and isinstance(e.op, ast.USub):
+        e = e.operand
+    return isinstance(e, (ast.Constant, ast.Name)) or (isinstance(e, ast.Attribute) and _pure_value(e.value))
+
+
+def _impure_calls(node: ast.AST) -> list:
+    out = []
+    for c in ast.walk(node):
+        if isinstance(c, ast.Call):
+            d = dotted(c.func) or ""
+            if not (d.startswith(PURE_CALLS) or d in PURE_BUILTINS):
+                out.append(c)
+    return out
+
+
+def _propagate_locals(fn: ast.AST) -> bool:
+    """`v = <pure value>` (also `a, b = <pure>, <pure>`) for a local that is bound several times by such assignments only: every later read
+    that this binding alone reaches is replaced by the value.  The walk is per block and per branch (arms of if / match are separate paths);
+    a binding whose value is an attribute path is forgotten at the first statement that could change what the path denotes (a call of package
+    code, a store to an attribute / item); inside one statement such a value is substituted only where no call has been evaluated before the
+    read (every impure call of the statement encloses the read)."""
+    import copy
+    stores: dict = {}
+    bad: set = {a.arg for a in ast.walk(fn.args) if isinstance(a, ast.arg)}
+    for x in ast.walk(fn):
+        if isinstance(x, (ast.FunctionDef, ast.AsyncFunctionDef, ast.Lambda, ast.ClassDef)) and x is not fn:
+            for y in ast.walk(x):        # names that occur in a nested scope are left alone
+                if isinstance(y, ast.Name):
+                    bad.add(y.id)
+                elif isinstance(y, ast.arg):
+                    bad.add(y.arg)
+        elif isinstance(x, ast.Assign) and len(x.targets) == 1:
+            t, v = x.targets[0], x.value
+            if isinstance(t, ast.Name) and _pure_value(v):
+                stores.setdefault(t.id, []).append(x)
+                continue
+            if isinstance(t, (ast.Tuple, ast.List)) and isinstance(v, (ast.Tuple, ast.List)) and len(t.elts) == len(v.elts) \
+                    and all(isinstance(a, ast.Name) for a in t.elts) and all(_pure_value(b) for b in v.elts):
+                for a in t.elts:
+                    stores.setdefault(a.id, []).append(x)
+                continue
+            bad |= {y.id for y in ast.walk(t) if isinstance(y, ast.Name) and isinstance(y.ctx, ast.Store)}
+        elif isinstance(x, (ast.AugAssign, ast.AnnAssign, ast.For, ast.AsyncFor, ast.comprehension, ast.NamedExpr)):
+            bad |= {y.id for y in ast.walk(x.target) if isinstance(y, ast.Name)}
+        elif isinstance(x, ast.Assign):
+            bad |= {y.id for t in x.targets for y in ast.walk(t) if isinstance(y, ast.Name) and isinstance(y.ctx, ast.Store)}
+        elif isinstance(x, (ast.With, ast.AsyncWith)):
+            bad |= {y.id for it in x.items if it.optional_vars is not None for y in ast.walk(it.optional_vars) if isinstance(y, ast.Name)}
+        elif isinstance(x, ast.ExceptHandler) and x.name:
+            bad.add(x.name)
+        elif isinstance(x, (ast.MatchAs, ast.MatchStar)) and x.name:
+            bad.add(x.name)
+        elif isinstance(x, ast.MatchMapping) and x.rest:
+            bad.add(x.rest)
+        elif isinstance(x, (ast.Global, ast.Nonlocal)):
+            bad |= set(x.names)
+        elif isinstance(x, (ast.Import, ast.ImportFrom)):
+            bad |= {(al.asname or al.name).split(".")[0] for al in x.names}
+        elif isinstance(x, ast.Delete):
+            bad |= {y.id for t in x.targets for y in ast.walk(t) if isinstance(y, ast.Name)}
+    cands = {nm for nm, sts in stores.items() if len(sts) >= 2 and nm not in bad}
+    if not cands:
+        return False
+    changed = [False]
+
+    def is_path(v) -> bool:
+        return any(isinstance(y, ast.Attribute) for y in ast.walk(v))
+
+    def subst(root: ast.AST, env: dict):
+        """root with the reads of bound names replaced (in place)"""
+        if not env:
+            return
+        calls = _impure_calls(root)
+        inside = {id(c): {id(y) for y in ast.walk(c)} for c in calls}
+
+        class T(ast.NodeTransformer):
+            def visit_Name(self, x):
+                if isinstance(x.ctx, ast.Load) and x.id in env:
+                    v = env[x.id]
+                    if not is_path(v) or all(id(x) in inside[id(c)] for c in calls):
+                        changed[0] = True
+                        return ast.copy_location(copy.deepcopy(v), x)
+                return x
+
+            def visit_Lambda(self, x):
+                return x
+        for fld, val in ast.iter_fields(root):
+            if isinstance(val, ast.AST):
+                setattr(root, fld, T().visit(val))
+            elif isinstance(val, list):
+                setattr(root, fld, [T().visit(v) if isinstance(v, ast.AST) else v for v in val])
+
+    def kill(env: dict, node: ast.AST, header_only: bool = False):
+        names = {y.id for y in ast.walk(node) if isinstance(y, ast.Name) and isinstance(y.ctx, (ast.Store, ast.Del))}
+        mutates = bool(_impure_calls(node)) or any(isinstance(y, (ast.Attribute, ast.Subscript)) and isinstance(y.ctx, (ast.Store, ast.Del)) for y in ast.walk(node))
+        for k in list(env):
+            v = env[k]
+            if k in names or {y.id for y in ast.walk(v) if isinstance(y, ast.Name)} & names or (mutates and is_path(v)):
+                del env[k]
+
+    def meet(envs: list) -> dict:
+        first = envs[0]
+        return {k: v for k, v in first.items() if all(k in e and ast.dump(e[k]) == ast.dump(v) for e in envs[1:])}
+
+    def block(stmts: list, env: dict) -> dict:
+        for st in stmts:
+            if isinstance(st, (ast.FunctionDef, ast.AsyncFunctionDef, ast.ClassDef)):
+                continue
+            if isinstance(st, ast.If):
+                hdr = ast.Expr(value=st.test)
+                subst(hdr, env)
+                st.test = hdr.value
+                kill(env, st.test)
+                env = meet([block(st.body, dict(env)), block(st.orelse, dict(env))])
+            elif isinstance(st, ast.Match):
+                hdr = ast.Expr(value=st.subject)
+                subst(hdr, env)
+                st.subject = hdr.value
+                kill(env, st.subject)
+                outs = [block(c.body, dict(env)) for c in st.cases]
+                if not any(isinstance(c.pattern, ast.MatchAs) and c.pattern.pattern is None and c.guard is None for c in st.cases):
+                    outs.append(dict(env))
+                if any(c.guard is not None and _impure_calls(c.guard) for c in st.cases):
+                    outs.append({})
+                env = meet(outs)
+            elif isinstance(st, (ast.For, ast.AsyncFor, ast.While, ast.With, ast.AsyncWith, ast.Try)) or isinstance(st, getattr(ast, "TryStar", ())):
+                kill(env, st)                  # whatever the construct may re-bind / change is forgotten before its parts are read
+                for fld in ("body", "orelse", "finalbody"):
+                    sub = getattr(st, fld, None)
+                    if isinstance(sub, list) and sub:
+                        block(sub, dict(env))
+                for h in getattr(st, "handlers", []) or []:
+                    block(h.body, dict(env))
+            else:
+                subst(st, env)
+                kill(env, st)
+                if isinstance(st, ast.Assign) and len(st.targets) == 1:
+                    t, v = st.targets[0], st.value
+                    pairs = [(t, v)] if isinstance(t, ast.Name) else list(zip(t.elts, v.elts)) if isinstance(t, (ast.Tuple, ast.List)) and isinstance(v, (ast.Tuple, ast.List)) \
+                        and len(t.elts) == len(v.elts) else []
+                    tnames = {a.id for a, _ in pairs if isinstance(a, ast.Name)}
+                    for a, b in pairs:
+                        if isinstance(a, ast.Name) and a.id in cands and _pure_value(b) and not ({y.id for y in ast.walk(b) if isinstance(y, ast.Name)} & tnames):
+                            env[a.id] = b
+        return env
+
+    block(fn.body, {})
+    return changed[0]
+
+
+def _guard_clauses(fn: ast.AST) -> bool:
+    """in a `for` body:  `if c: A else: B; continue`  ->  `if not c: B; continue` followed by A   (and `if c: B; continue else: A` -> guard, then A):
+    the spelling c06.written_out turns into if / else before it writes the loop out"""
+    changed = False
+    for loop in [x for x in ast.walk(fn) if isinstance(x, ast.For)]:
+        body, i = list(loop.body), 0
+        while i < len(body):
+            st = body[i]
+            if isinstance(st, ast.If) and st.body and st.orelse:
+                if isinstance(st.orelse[-1], ast.Continue):
+                    guard = ast.copy_location(ast.If(test=ast.copy_location(ast.UnaryOp(op=ast.Not(), operand=st.test), st.test), body=st.orelse, orelse=[]), st)
+                    rest = [b for b in st.body if not isinstance(b, ast.Pass)]
+                elif isinstance(st.body[-1], ast.Continue):
+                    guard = ast.copy_location(ast.If(test=st.test, body=st.body, orelse=[]), st)
+                    rest = [b for b in st.orelse if not isinstance(b, ast.Pass)]
+                else:
+                    i += 1
+                    continue
+                body[i:i + 1] = [guard] + rest
+                changed = True
+            i += 1
+        loop.body = body
+    return changed
+
+
+_WRITTEN18: dict = {}
+
+
+def _written(S, fi):
+    """fi with a loop over literal cases written out and the block-local names of the copies resolved; fi itself when it has no such loop"""
+    key = (id(S), fi.name, id(fi.node))
+    if key in _WRITTEN18:
+        return _WRITTEN18[key][1]
+    out = fi
+    loops = sum(isinstance(x, ast.For) for x in own_nodes(fi.node))
+    if loops:
+        import copy
+        from ..core import FuncInfo
+        from .c06 import written_out
+        pre = copy.deepcopy(fi.node)
+        src_fi = fi
+        if _guard_clauses(pre):
+            ast.fix_missing_locations(pre)
+            src_fi = FuncInfo(fi.module, fi.qual, pre, fi.cls, fi.parent)
+        w = written_out(S, src_fi)
+        if w is not src_fi and sum(isinstance(x, ast.For) for x in own_nodes(w.node)) < loops:
+            node = copy.deepcopy(w.node)
+            _propagate_locals(node)
+            ast.fix_missing_locations(node)
+            out = FuncInfo(fi.module, fi.qual, node, fi.cls, fi.parent)
+    _WRITTEN18[key] = (fi.node, out)
+    return out
 
 
 # ------------------------------------------------------------------ point masks, by role
@@ -265,6 +483,7 @@ def r18_1(chk: Check) -> None:
     summ = _mask_summaries(chk)
     chk.note(f"mask summaries: { {k: v[0] for k, v in summ.items()} }")
     for name, fi in sorted(ci.methods.items()):
+        fi = _written(S, fi)
         M = Masks(S, fi, summ)
         for st in own_nodes(fi.node):
             sm = M.store_mask(st)
@@ -283,6 +502,7 @@ def r18_1(chk: Check) -> None:
         fi = ci.methods.get(name)
         if fi is None:
             raise AnchorMissing(f"InterpolatableFunction.{name} not found")
+        fi = _written(S, fi)
         M = Masks(S, fi, summ)
         seen_out = seen_in = 0
         for st in own_nodes(fi.node):
@@ -480,7 +700,7 @@ def _shape_offsets(S, fi, M: Masks, e: ast.AST, bases: set, depth: int = 0, shap
 
 def r18_2(chk: Check) -> None:
     S = chk.src
-    fi = S.func(f"{IF}._evaluateOutOfBounds")
+    fi = _written(S, S.func(f"{IF}._evaluateOutOfBounds"))
     chk.touch(fi.name)
     M = Masks(S, fi, _mask_summaries(chk))
     disp = _dispatches(fi, M.cx)
@@ -672,7 +892,7 @@ def r18_4(chk: Check) -> None:
     if enum is None:
         raise AnchorMissing("EExtrapolationType not found")
     members = [t.id for st in enum.node.body if isinstance(st, ast.Assign) for t in st.targets if isinstance(t, ast.Name)]
-    fi = S.func(f"{IF}._evaluateOutOfBounds")
+    fi = _written(S, S.func(f"{IF}._evaluateOutOfBounds"))
     M = Masks(S, fi, _mask_summaries(chk))
     cx = M.cx
     disp = [d for d in _dispatches(fi, cx)]
@@ -874,7 +1094,7 @@ def r18_5(chk: Check) -> None:
     chk.ob("R18.5", f_int.where(), "stored abscissae and values are the two results of one _dropBadPoints(x, fx) call", okd,
            f"{pts} / {vals}", key="filter-pair")
     # extension order: the two 3-block concatenations around the stored table
-    f_ext = S.func(f"{IF}.extendInterpolationTable")
+    f_ext = _written(S, S.func(f"{IF}.extendInterpolationTable"))       # (a loop over the two new blocks is written out)
     chk.touch(f_ext.name)
     ce = Ctx(S, f_ext)
     ME = Masks(S, f_ext, {})
